@@ -702,6 +702,9 @@ func c14Store(c *core.Check, add *core.Func) {
 			for _, lf := range c14Leaves(add, s.Cond, rt, 0) {
 				field, isEq, ok := fieldCmp(lf.e)
 				switch {
+				case lf.disj && !fieldUsed(info, lf.e, "metrics.Metric", "Program"):
+					// whichever operand is demanded, none of them is about the program: an extra reason to skip
+					c.Fail("C14-R5", storeAdd+"|skip on "+exprStr(lf.e), pos(c, lf.e), fmt.Sprintf("recognising the previous version additionally depends on `%s` (a compound condition that does not concern the program): an existing metric of the same name and program for which it decides `skip` stays in the store next to the new one — two series with the same name and labels from one program", exprStr(lf.e)))
 				case lf.disj:
 					c.Undecided("C14-R5", storeAdd+"|skip on "+exprStr(lf.e), pos(c, lf.e), "the previous version is recognised only when a disjunction holds; which of its operands is demanded is not decided")
 				case ok && isEq == lf.pol && field == "Program":
